@@ -11,6 +11,7 @@ use radix_engine::system::system_modules::costing::*;
 use radix_engine::transaction::CostingParameters;
 use radix_engine_interface::blueprints::resource::LiquidFungibleResource;
 use radix_transactions::model::{TipSpecifier, TransactionCostingParameters};
+use radix_common::prelude::IndexSet;
 use std::io::BufRead;
 use std::str::FromStr;
 
@@ -174,8 +175,49 @@ fn fee_run(a: &[&str]) -> String {
     format!("val {}", out.join(" "))
 }
 
+/// `nf_run <op> <n container ids> <ids...> <m argument ids> <ids...>` on the REAL LiquidNonFungibleResource
+/// (integer local ids): op = take | put | takeall. Prints `ok <remaining sorted> | <result sorted>` or `err <id>`.
+fn nf_run(a: &[&str]) -> String {
+    use radix_common::prelude::NonFungibleLocalId;
+    use radix_engine_interface::blueprints::resource::{LiquidNonFungibleResource, ResourceError};
+    let n: usize = a[1].parse().unwrap();
+    let held: IndexSet<NonFungibleLocalId> =
+        a[2..2 + n].iter().map(|x| NonFungibleLocalId::integer(x.parse().unwrap())).collect();
+    let m: usize = a[2 + n].parse().unwrap();
+    let arg: IndexSet<NonFungibleLocalId> =
+        a[3 + n..3 + n + m].iter().map(|x| NonFungibleLocalId::integer(x.parse().unwrap())).collect();
+    let mut c = LiquidNonFungibleResource::new(held);
+    let show = |s: &IndexSet<NonFungibleLocalId>| {
+        let mut v: Vec<u64> = s
+            .iter()
+            .map(|i| match i {
+                NonFungibleLocalId::Integer(x) => x.value(),
+                _ => 0,
+            })
+            .collect();
+        v.sort();
+        v.iter().map(|x| x.to_string()).collect::<Vec<_>>().join(",")
+    };
+    match a[0] {
+        "take" => match c.take_by_ids(&arg) {
+            Ok(t) => format!("val ok [{}] [{}]", show(c.ids()), show(t.ids())),
+            Err(ResourceError::MissingNonFungibleLocalId(i)) => format!("val err {}", i),
+            Err(_) => "val err ?".into(),
+        },
+        "put" => {
+            c.put(LiquidNonFungibleResource::new(arg)).unwrap();
+            format!("val ok [{}] []", show(c.ids()))
+        }
+        _ => {
+            let t = c.take_all();
+            format!("val ok [{}] [{}]", show(c.ids()), show(t.ids()))
+        }
+    }
+}
+
 fn run(a: &[&str]) -> String {
     match a[0] {
+        "nf_run" => nf_run(&a[1..]),
         "fee_run" => fee_run(&a[1..]),
         "locks_run" => locks_run(&a[1..]),
         "pool1_owed" => rd(verif_one_resource_pool_calculate_amount_owed(
